@@ -1,7 +1,7 @@
 """C15 — lattice paths connect exactly their endpoints (planar, toric, rotated toric)."""
 import json
 
-from harness import lat_common, lat_pathhist
+from harness import lat_aliased, lat_common, lat_pathhist
 
 
 def run(ctx):
@@ -10,11 +10,14 @@ def run(ctx):
                 'to the model; syndrome of the path = indicator of the in-lattice endpoints, weight = distance, translation '
                 'symmetric, evaluated on the implementation. nontrivial = pair with both coordinates differing, wrap-around '
                 'tie or a virtual end; histories on one Pauli object (paths on Paulis that already carry operators, '
-                'repeated / overlapping paths, reads in between): every read = previous bsf XOR the model\'s path operator')
+                'repeated / overlapping paths, reads in between): every read = previous bsf XOR the model\'s path operator; '
+                'call histories on the codes (every syndrome resolved several times on the same / another / a fresh equal code while '
+                'the caller pops / clears / extends / keeps the returned sets): every answer = the model\'s')
     lat_common.prepare(ctx)
     fams = lat_common.run_families(ctx, 'check_c15', translator_families=['planar', 'toric', 'rottoric'])
     lat_common.stage(ctx, 'path_histories', lat_pathhist.path_histories)
     lat_common.extreme_sizes(ctx)
+    lat_aliased.result_aliased(ctx)
     ctx.extra['families'] = fams
 
 
